@@ -8,8 +8,8 @@ carries and writes next to its results (cli/cli_log.py).
           are accounted for, an error raises and records nothing.
 2. S->C : every complete history of the model is replayed into the real class (stdout and warnings captured,
           a real file written) and CommandLog_Trace compares after every call the outcome, the lines in
-          memory, the lines of the file, the print and warning counts.  Outside TLC: each line has the
-          '<seconds> seconds == ' prefix and the time stamps never decrease.
+          memory, the lines of the file, the print and warning counts.  Outside TLC: each line (memory and file) has the
+          '<seconds> seconds == ' prefix and the time stamps of the memory never decrease.
 """
 import concurrent.futures as cf
 import contextlib
@@ -30,13 +30,14 @@ from harness.traces import validate
 PID = 'X16'
 CL = {3601: 'the call raised / returned differently', 3602: 'lines held in memory differ (tag, message or order)',
       3603: 'lines of the log file differ', 3604: 'number of printed lines differs',
-      3605: 'number of warnings issued differs', 3690: 'a line lacks the time prefix or time stamps decrease',
+      3605: 'number of warnings issued differs', 3690: 'a line lacks the time prefix or the time stamps of the memory decrease',
       0: 'call not possible in the model at this point'}
 LINE = re.compile(r'^(\d\.\d{5}e[+-]\d\d) seconds == (.*)$')
 
 
-def _project(lines, d):
-    """log lines -> [{t, m}], plus whether every line is well formed with non-decreasing time stamps"""
+def _project(lines, d, monotone=True):
+    """log lines -> [{t, m}], plus whether every line is well formed (and, for the memory, the time stamps never
+    decrease; the file repeats the memory at every write - WriteAppends - so its stamps restart per block)"""
     out, ok, t_prev = [], True, -1.0
     for ln in lines:
         mt = LINE.match(ln)
@@ -45,7 +46,7 @@ def _project(lines, d):
             out.append({'t': 'malformed', 'm': ln[:40]})
             continue
         t = float(mt.group(1))
-        if t < t_prev:
+        if monotone and t < t_prev:
             ok = False
         t_prev = t
         body = mt.group(2)
@@ -98,7 +99,7 @@ def _case(args):
             printed += len([x for x in buf.getvalue().split('\n') if x])
             warned += len(caught)
             mem, ok1 = _project(list(log.log), d)
-            fl, ok2 = _project(path.read_text().split('\n')[:-1] if path.exists() else [], d)
+            fl, ok2 = _project(path.read_text().split('\n')[:-1] if path.exists() else [], d, monotone=False)
             wellformed = wellformed and ok1 and ok2
             events.append({'op': op['op'], 'm': op['m'] or 'm', 'cs': bool(op['cs']), 'outcome': outcome,
                            'mem': mem, 'file': fl, 'printed': printed, 'warned': warned})
